@@ -57,7 +57,8 @@ def build(case):
         for sid, ang in zip(ids, station_angles(case)):
             net.register_evse(EVSE(sid, max_rate=1e6), 208, ang)
         for j, con in enumerate(case["cons"]):
-            cur = Current({sid: n / cd for sid, n in zip(ids, con["n"]) if n != 0})
+            # whole coefficients are handed over as Python ints, fractional ones as floats (as a user would write them)
+            cur = Current({sid: (n // cd if n % cd == 0 else n / cd) for sid, n in zip(ids, con["n"]) if n != 0})
             net.add_constraint(cur, con["lim"] / upa, name="con-%d" % j)
         sim = Simulator(net, BaseAlgorithm(), EventQueue(), datetime(2020, 1, 1), period=5, verbose=False)
         iface = Interface(sim)
